@@ -140,6 +140,7 @@ type CoreCfg struct {
 	Lean bool // race build: oracles that read payloads are off
 
 	LogLevel       hclog.Level
+	LogJSON        bool // a real JSON-format hclog logger formats every message too
 	ReadTimeout    time.Duration
 	WriteTimeout   time.Duration
 	NoRecovery     bool
@@ -244,7 +245,10 @@ func (c *Core) handler(route int) gldap.HandlerFunc {
 		if sc.Panic {
 			// what a handler may panic with: a string, an error, a runtime
 			// error, any other value
-			switch id % 4 {
+			switch id % 5 {
+			case 4:
+				var e *nilErr
+				panic(e) // an error value whose Error method itself panics
 			case 1:
 				panic(fmt.Errorf("sim: scripted handler panic (m=%d)", id))
 			case 2:
@@ -298,6 +302,11 @@ func (c *Core) handler(route int) gldap.HandlerFunc {
 	}
 }
 
+// nilErr is an error whose Error method dereferences its (nil) receiver.
+type nilErr struct{ msg string }
+
+func (e *nilErr) Error() string { return e.msg }
+
 func (c *Core) onClose(id int) {
 	simrt.Emit("onclose-enter", id, 0, 0, 0, "", nil)
 	if c.Cfg.OnClose == 2 {
@@ -319,7 +328,11 @@ func (c *Core) Setup(s *Sim) {
 	c.byG = map[int]int{}
 	c.faultsLeft = cfg.FaultBudget
 	c.held = cfg.HoldAll
-	opts := []gldap.Option{gldap.WithLogger(newLogger(cfg.LogLevel))}
+	lg := newLogger(cfg.LogLevel)
+	if cfg.LogJSON {
+		lg = newJSONLogger(cfg.LogLevel)
+	}
+	opts := []gldap.Option{gldap.WithLogger(lg)}
 	if cfg.ReadTimeout > 0 {
 		opts = append(opts, gldap.WithReadTimeout(cfg.ReadTimeout))
 	}
@@ -405,6 +418,13 @@ func (c *Core) Setup(s *Sim) {
 				simrt.Emit("ready", 0, 0, v, 0, "", nil)
 				simrt.Park("task", "ready-poll", nil)
 			}
+			// and once more when everything else has settled (drain phase)
+			simrt.Park("task", "ready-final", nil)
+			v := int64(0)
+			if srv.Ready() {
+				v = 1
+			}
+			simrt.Emit("ready", 0, 0, v, 0, "", nil)
 		})
 	}
 }
@@ -457,6 +477,9 @@ func (c *Core) Gate(p *simrt.Parked) bool {
 	case "stall":
 		return c.rel[p.Site]
 	case "task":
+		if p.Site == "ready-final" {
+			return c.drain
+		}
 		if strings.HasPrefix(p.Site, "cl") && strings.HasSuffix(p.Site, "-step") {
 			i, _ := strconv.Atoi(p.Site[2 : len(p.Site)-5])
 			if i < len(c.Cfg.Clients) {
@@ -706,7 +729,7 @@ func (c *Core) faultActions(s *Sim, acts []Action) []Action {
 				s.Logf("FAULT accept returns EMFILE")
 				s.Fault("F12-accept-error")
 				c.faultsLeft--
-				l.InjectAcceptErrors(1)
+				l.InjectAcceptErrors([]int{1, 1, 1, 3, 12}[s.Ch.Choose(5)])
 				c.lateOK = true
 			}})
 		}
